@@ -187,15 +187,35 @@ is not an "abort" that excuses the missing rest. -/
 def serverErrorsJustified (T R : Nat) (ideal : List Bytes) (tr : List Obs) : Bool :=
   errorsJustifiedFrom T R ideal .idle [] tr
 
+/-- the content needs more blocks than there are ideal packets: the block counter overflows with
+wrapping disabled (`idealPackets` is cut after block 65535) -/
+def tooLong (blocks ideal : List Bytes) : Bool := decide (ideal.length < blocks.length)
+
+/-- "when counter wrapping is disabled an over-long transfer ENDS WITH AN ERROR": when the content
+needs more blocks than the ideal packet sequence has and every ideal packet has been sent, the
+C02 automaton must leave the trace in `ended` — through the server's ERROR packet (any datagram to
+the client that is neither DATA nor OACK), the client's ERROR or invalid packet, or the last
+permitted timeout of block 65535. A server that just goes silent (closes the socket) once block
+65535 is acknowledged leaves the automaton in `flow` with `acked`, which the other conjuncts accept:
+all ideal packets were sent and nothing is outstanding. One pass over the trace. A trace the
+automaton rejects is reported by `c02Check`. -/
+def overflowEndsWithError (T R : Nat) (blocks ideal : List Bytes) (tr : List Obs) : Bool :=
+  !(tooLong blocks ideal && dataFirsts tr == ideal) ||
+    match runSteps (c02Step T R) .idle tr with
+    | some ph => isEnded ph
+    | none => true
+
 /-- C01 checker: what was sent is a prefix of the ideal packet sequence, and the whole of it
 unless the transfer was aborted (client error / invalid packet / retries exhausted / overflow);
-it is not abandoned while the retry budget of the outstanding packet is not used up; and the server
-itself aborts (sends ERROR) only in answer to the client's abort or after the last ideal packet -/
+it is not abandoned while the retry budget of the outstanding packet is not used up; the server
+itself aborts (sends ERROR) only in answer to the client's abort or after the last ideal packet;
+and after the last ideal packet of a transfer that is too long for the block counter it does so -/
 def c01Check (na : Bool) (bs : Nat) (wrap : Option Nat) (T R : Nat) (content : Bytes) (tr : List Obs) : Bool :=
   let datas := dataFirsts tr
   let ideal := idealPackets wrap 0 (idealBlocks na bs content)
   datas.isPrefixOf ideal && (sawAbort T R tr || datas == ideal) && noPrematureGiveUp T R tr &&
-    serverErrorsJustified T R ideal tr
+    serverErrorsJustified T R ideal tr &&
+    overflowEndsWithError T R (idealBlocks na bs content) ideal tr
 
 /-- payloads of the observed DATA packets -/
 def payloadsOf (datas : List Bytes) : List Bytes := datas.map (fun p => p.drop 4)
